@@ -492,6 +492,10 @@ func TestPropDeep(t *testing.T) {
 	if bad > 0 {
 		t.Errorf("VIOLATION-CANDIDATE deep: %d cases", bad)
 	}
+}
+
+func TestPropDeepRandom(t *testing.T) {
+	registerAll()
 	ev.Rapid(t, "deep-random", ev.N(600, 6000), func(t *rapid.T) Case {
 		depth := rapid.SampledFrom([]int{10, 18, 19, 20, 33, 36, 40, 64, 65, 100, 130, 257, 400}).Draw(t, "depth")
 		var sh strings.Builder
